@@ -32,7 +32,7 @@ def main(argv):
     out['meta'] = {
         'tenpy_file': tenpy.__file__,
         'have_cython': bool(optimization.have_cython_functions),
-        'helper_file': os.path.realpath(getattr(sys.modules.get('tenpy.linalg._npc_helper'), '__file__', None) or '') or None,
+        'helper_file': (os.path.realpath(sys.modules['tenpy.linalg._npc_helper'].__file__) if 'tenpy.linalg._npc_helper' in sys.modules else None),
         'optimize': int(optimization._level),
     }
     if replay is not None:
